@@ -47,9 +47,12 @@ type srvSpec struct {
 	fixedRoot string // os server: serve this directory (wiped first) instead of a fresh scratch directory
 	replyFail bool   // the peer's receiving side goes away once the setup is done: every later reply fails to be written
 	appClose  bool   // the application calls RequestServer.Close() at a point the explorer chooses
-	maxTx     uint32 // maximum payload option (0 = not given)
-	txFirst   bool   // give the maximum payload option before the allocator option (options are applied in order)
-	dirs      []string
+	// the allocator option VALUE to use (instead of calling the constructor): one option list used for several servers
+	rsOpt   RequestServerOption
+	osOpt   ServerOption
+	maxTx   uint32 // maximum payload option (0 = not given)
+	txFirst bool   // give the maximum payload option before the allocator option (options are applied in order)
+	dirs    []string
 }
 
 type srvRun struct {
@@ -124,7 +127,9 @@ func (s *srvSpec) start() *srvRun {
 		if s.maxTx > 0 && s.txFirst {
 			opts = append(opts, WithRSMaxTxPacket(s.maxTx))
 		}
-		if s.alloc {
+		if s.rsOpt != nil {
+			opts = append(opts, s.rsOpt)
+		} else if s.alloc {
 			opts = append(opts, WithRSAllocator())
 		}
 		if s.maxTx > 0 && !s.txFirst {
@@ -169,7 +174,9 @@ func (s *srvSpec) start() *srvRun {
 		if s.maxTx > 0 && s.txFirst {
 			opts = append(opts, WithMaxTxPacket(s.maxTx))
 		}
-		if s.alloc {
+		if s.osOpt != nil {
+			opts = append(opts, s.osOpt)
+		} else if s.alloc {
 			opts = append(opts, WithAllocator())
 		}
 		if s.maxTx > 0 && !s.txFirst {
